@@ -44,7 +44,8 @@ def run(tier, rep, work):
             if quick and cfg["kind"] != "flat":
                 g = g[::3]
         vecfam.run_config(rep, work, exe, d, "C02", tier, cfg, g, i)
-    rep.cov["exhaustive"] = True
+    rep.cov["exhaustive"] = not quick
+    rep.cov["exhaustive_scope"] = "model space enumerated completely by TLC; every generated history is replayed in the thorough tier, 1 in 3 for the non-flat kinds in the quick tier; random histories are samples"
     rep.cov["rule"] = vecfam.RULE + " HNSW is held to the soundness conjunction only (live, eligible, unique, right score, ascending, at most k); the other kinds to exact top-k with respect to their score table."
     rep.cov["trusted_base"] = ["TLC", "float64 reference evaluator (metric distances; ADC distance recomputed from exported codebooks / centroids and stored codes)",
                                "verif accessors exporting centroids, codebooks, stored codes and list membership"]
